@@ -836,14 +836,17 @@ Qed.
 Lemma run_events_steps evs : forall s tr s' tr',
   run_events (s, tr) evs = Some (s', tr') -> exists m, tr' = rev m ++ tr /\ steps s m = Some s'.
 Proof.
-  induction evs as [|ev r IH]; cbn; intros s tr s' tr' H.
+  induction evs as [|ev r IH]; intros s tr s' tr' H.
   - inversion H; subst. exists []. auto.
-  - destruct (do_labels s (env_labels s ev) tr) as [[s1 tr1]|] eqn:E1; try discriminate.
-    destruct (settle settle_fuel s1 tr1) as [[s2 tr2]|] eqn:E2; try discriminate.
+  - assert (exists st1, run_event (s, tr) ev = Some st1 /\ run_events st1 r = Some (s', tr')) as ([s2 tr2] & R1 & R2).
+    { change (match run_event (s, tr) ev with Some st' => run_events st' r | None => None end = Some (s', tr')) in H.
+      destruct (run_event (s, tr) ev) as [st1|]; [exists st1; auto|discriminate]. }
+    unfold run_event in R1.
+    destruct (do_labels s (env_labels s ev) tr) as [[s1 tr1]|] eqn:E1; try discriminate.
     destruct (do_labels_steps _ _ _ _ _ E1) as (m1 & -> & H1).
-    destruct (settle_steps _ _ _ _ _ E2) as (m2 & -> & H2).
-    destruct (IH _ _ _ _ H) as (m3 & -> & H3).
-    exists (m1 ++ m2 ++ m3). rewrite !steps_app, H1, H2, H3. split; auto.
+    destruct (settle_steps _ _ _ _ _ R1) as (m2 & -> & H2).
+    destruct (IH _ _ _ _ R2) as (m3 & -> & H3).
+    exists (m1 ++ m2 ++ m3). rewrite steps_app, H1, steps_app, H2, H3. split; auto.
     rewrite !rev_app_distr, <- !app_assoc. reflexivity.
 Qed.
 
@@ -858,4 +861,97 @@ Theorem run_history_reachable evs s : run_history evs = Some s -> reachable s.
 Proof.
   unfold run_history. destruct (run_trace evs) as [[s1 tr]|] eqn:E; try discriminate.
   intros H; inversion H; subst. exists tr. apply (big_refines_small evs); auto.
+Qed.
+
+Ltac dmatch H :=
+  repeat match type of H with
+  | context [match ?x with _ => _ end] => destruct x eqn:?; try discriminate H
+  | context [if ?x then _ else _] => destruct x eqn:?; try discriminate H
+  end.
+
+Lemma idle_only_by_rel2 s l s' c :
+  step s l = Some s' ->
+  f_inidle (fl (conns s c)) = false -> f_inidle (fl (conns s' c)) = true ->
+  exists w, l = LRel2 w /\ w_pc (works s w) = WRel2 c true.
+Proof.
+  unfold step. destruct (panicked s); try discriminate.
+  destruct l; intros H Hb Ha.
+  18: { unfold st_rel2 in H. destruct (w_pc (works s w)) eqn:Ep; try discriminate.
+        inversion H; subst s'; clear H. cbn in Ha. unfold upd in Ha.
+        destruct (Nat.eqb c c0) eqn:Ec.
+        - apply Nat.eqb_eq in Ec. subst c0. exists w. split; auto.
+          cbn in Ha. unfold fl_close in Ha. destruct ok; auto.
+          destruct (t_closed s); cbn in Ha; congruence.
+        - congruence. }
+  all: exfalso.
+  all: unfold st_start, st_cancel, st_tclose, st_getidle, st_getnone, st_dialok, st_dialfail, st_dialdeliver,
+         st_dialabandon, st_ctxdone, st_recv, st_write, st_writeerr, st_read, st_readerr, st_sendres, st_rel1,
+         st_timer, st_srvwhole, st_srvhalf1, st_srvhalf2, st_srvabort, fl_close in H.
+  all: dmatch H; inversion H; subst s'; clear H; cbn in Ha; unfold upd in Ha.
+  all: try congruence.
+  all: repeat match type of Ha with context [if ?x then _ else _] => destruct x eqn:? end; cbn in Ha; try congruence.
+  all: try (match goal with E : Nat.eqb _ _ = true |- _ => apply Nat.eqb_eq in E; subst end; cbn in *; congruence).
+Qed.
+
+(* ---- the C06 statements ---- *)
+
+Lemma single_outstanding s c : reachable s ->
+  i_written (io (conns s c)) <= S (i_consumed (io (conns s c))).
+Proof. intros R. destruct (inv_conn _ (reachable_inv s R) c) as (K1 & _). exact K1. Qed.
+
+Lemma server_view s c : reachable s ->
+  s_maxout (srv (conns s c)) <= 1 /\ s_dirtyq (srv (conns s c)) = false.
+Proof. intros R. destruct (inv_conn _ (reachable_inv s R) c) as (_ & K2 & K3 & _). auto. Qed.
+
+Lemma idle_clean s c : reachable s -> f_inidle (fl (conns s c)) = true ->
+  f_serving (fl (conns s c)) = false /\
+  i_written (io (conns s c)) = i_consumed (io (conns s c)) /\
+  i_partial (io (conns s c)) = false /\ i_err (io (conns s c)) = false /\
+  s_unans (srv (conns s c)) = [] /\ s_mid (srv (conns s c)) = None /\ s_inbox (srv (conns s c)) = [].
+Proof.
+  intros R Hi. destruct (inv_conn _ (reachable_inv s R) c) as (_ & _ & _ & _ & K5).
+  destruct (K5 Hi) as [A B]. split; auto.
+Qed.
+
+Lemma never_panics s : reachable s -> panicked s = false.
+Proof. intros R. apply (inv_nopanic _ (reachable_inv s R)). Qed.
+
+Lemma exclusive s w1 w2 c : reachable s ->
+  held (w_pc (works s w1)) = Some c -> held (w_pc (works s w2)) = Some c -> w1 = w2.
+Proof. intros R. apply (inv_uniq _ (reachable_inv s R)). Qed.
+
+Lemma owner_facts s w c : reachable s -> held (w_pc (works s w)) = Some c ->
+  c < nconn s /\ f_inidle (fl (conns s c)) = false /\
+  (hard (w_pc (works s w)) = true -> f_serving (fl (conns s c)) = true /\ f_closed (fl (conns s c)) = false).
+Proof.
+  intros R H. destruct (inv_work _ (reachable_inv s R) w) as (W1 & _).
+  destruct (W1 c H) as (A & B & C & _). auto.
+Qed.
+
+Lemma own_reply s e q : reachable s -> x_pc (exchs s e) = CDone (OMsg q) -> q = e.
+Proof. intros R H. destruct (inv_exch _ (reachable_inv s R) e) as (_ & _ & X3). auto. Qed.
+
+Lemma own_result s w q : reachable s -> w_sent (works s w) = Some (RMsg q) -> q = w_exch (works s w).
+Proof. intros R H. destruct (inv_work _ (reachable_inv s R) w) as (_ & _ & _ & _ & W5 & _). auto. Qed.
+
+(* a connection enters the idle set only through the second half of releaseConn of the goroutine
+   that owns it, and then it is clean *)
+Lemma becomes_idle s l s' c : reachable s -> step s l = Some s' ->
+  f_inidle (fl (conns s c)) = false -> f_inidle (fl (conns s' c)) = true ->
+  exists w, l = LRel2 w /\ w_pc (works s w) = WRel2 c true /\
+            f_serving (fl (conns s c)) = false /\ cleanc (conns s c).
+Proof.
+  intros R H Hb Ha. destruct (idle_only_by_rel2 s l s' c H Hb Ha) as (w & -> & Hp).
+  exists w. split; auto. split; auto.
+  destruct (inv_work _ (reachable_inv s R) w) as (W1 & W2 & _). rewrite Hp in W1, W2.
+  destruct (W1 c eq_refl) as (_ & _ & _ & D). split; [apply D; reflexivity|]. apply W2; auto.
+Qed.
+
+(* the caller giving up touches neither connections nor goroutines *)
+Lemma ctxdone_local s e s' : step s (LCallerCtxDone e) = Some s' ->
+  conns s' = conns s /\ works s' = works s /\ nconn s' = nconn s /\ x_pc (exchs s' e) = CDone OCancel.
+Proof.
+  unfold step, st_ctxdone. destruct (panicked s); try discriminate.
+  destruct (x_cancel (exchs s e)); try discriminate.
+  destruct (x_pc (exchs s e)); try discriminate; intros H; inversion H; cbn; rewrite upd_same; auto.
 Qed.
